@@ -40,6 +40,7 @@ type c07ctx struct {
 	awType    *types.Named // asyncbufio.Writer
 	qField    string       // chan []byte field
 	enqueue   *ssa.Function
+	senders   []*ssa.Function        // every function that sends on the queue (each must have the enqueue shape)
 	enqueues  map[*ssa.Function]bool // enqueue + thin wrappers (WriteString)
 	loopFn    *ssa.Function
 	ctor      *ssa.Function
@@ -57,7 +58,7 @@ func runC07(p *Prog, r *Report) {
 	r.MinInstances["C07.R3"] = 1
 	r.MinInstances["C07.R4"] = 3
 	r.MinInstances["C07.R5"] = 5
-	r.MinInstances["C07.R6"] = 3
+	r.MinInstances["C07.R6"] = 2
 	r.MinInstances["C07.R7"] = 3
 	c.ruleR3()
 	c.ruleR4()
@@ -123,18 +124,12 @@ func (c *c07ctx) anchors() bool {
 			switch x := in.(type) {
 			case *ssa.Send:
 				if c.isQueueChan(x.Chan) {
-					if c.enqueue != nil && c.enqueue != fn {
-						r.Bad("C07.R3", "second sender on the queue: "+FuncName(fn), p.InstrPos(in), "only the enqueue function may send on the queue channel")
-					}
-					c.enqueue = fn
+					c.noteSender(fn, in)
 				}
 			case *ssa.Select:
 				for _, st := range x.States {
 					if st.Dir == types.SendOnly && c.isQueueChan(st.Chan) {
-						if c.enqueue != nil && c.enqueue != fn {
-							r.Bad("C07.R3", "second sender on the queue: "+FuncName(fn), p.InstrPos(in), "only the enqueue function may send on the queue channel")
-						}
-						c.enqueue = fn
+						c.noteSender(fn, in)
 					}
 				}
 			}
@@ -145,6 +140,9 @@ func (c *c07ctx) anchors() bool {
 		return false
 	}
 	c.enqueues[c.enqueue] = true
+	for _, sfn := range c.senders {
+		c.enqueues[sfn] = true
+	}
 	// thin wrappers in the same package that call enqueue exactly once and return its results
 	for _, fn := range p.LibFuncs() {
 		if fnPkg(fn) != sp.Pkg || fn == c.enqueue {
@@ -211,8 +209,13 @@ func (c *c07ctx) anchors() bool {
 // ---- R3 -------------------------------------------------------------------------
 
 func (c *c07ctx) ruleR3() {
+	for _, fn := range c.senders {
+		c.ruleR3For(fn, fn == c.enqueue)
+	}
+}
+
+func (c *c07ctx) ruleR3For(fn *ssa.Function, primary bool) {
 	p, r := c.p, c.r
-	fn := c.enqueue
 	r.Fn(FuncName(fn))
 	key := FuncName(fn)
 	var sel *ssa.Select
@@ -235,13 +238,23 @@ func (c *c07ctx) ruleR3() {
 		r.Bad("C07.R3", key, p.Pos(fn.Pos()), "enqueue must be exactly one select with a single send on the queue (plus default), or one blocking send")
 		return
 	}
-	var param *ssa.Parameter
+	// what is sent: the []byte parameter itself, or the []byte conversion of a string parameter
+	var param ssa.Value
 	for _, prm := range fn.Params {
 		if _, ok := prm.Type().Underlying().(*types.Slice); ok {
 			param = prm
 		}
 	}
-	if sel.States[0].Send != ssa.Value(param) {
+	if param == nil {
+		if cv, ok := sel.States[0].Send.(*ssa.Convert); ok {
+			if prm, isP := cv.X.(*ssa.Parameter); isP {
+				if b, isB := prm.Type().Underlying().(*types.Basic); isB && b.Kind() == types.String {
+					param = cv
+				}
+			}
+		}
+	}
+	if param == nil || sel.States[0].Send != param {
 		r.Bad("C07.R3", key, p.InstrPos(sel), "the value sent on the queue must be the whole parameter slice (a sub-slice would write part of a record)")
 		return
 	}
@@ -266,7 +279,7 @@ func (c *c07ctx) ruleR3() {
 		case inSent:
 			isLen := false
 			if call, isCall := nv.(*ssa.Call); isCall {
-				if b, isB := call.Call.Value.(*ssa.Builtin); isB && b.Name() == "len" && call.Call.Args[0] == ssa.Value(param) {
+				if b, isB := call.Call.Value.(*ssa.Builtin); isB && b.Name() == "len" && call.Call.Args[0] == param {
 					isLen = true
 				}
 			}
@@ -324,8 +337,15 @@ func (c *c07ctx) ruleR3() {
 	})
 	r.Check(ok, "C07.R3", key, p.InstrPos(sel), "single non-blocking send of the whole parameter; (len(p),nil) when accepted, (0,err) when full", msg)
 	// wrappers return the enqueue's results unchanged
+	if !primary {
+		return
+	}
+	isSender := map[*ssa.Function]bool{}
+	for _, sfn := range c.senders {
+		isSender[sfn] = true
+	}
 	for w := range c.enqueues {
-		if w == fn {
+		if w == fn || isSender[w] {
 			continue
 		}
 		good := true
@@ -1052,6 +1072,8 @@ func (c *c07ctx) ruleR6() {
 			if IsCallTo(in, "(*os.File).Close") {
 				if _, f, _, ok := FieldOf(CallOf(in).Args[0]); ok && f != "" {
 					fc = append(fc, in)
+				} else if _, isPrm := CallOf(in).Args[0].(*ssa.Parameter); isPrm {
+					fc = append(fc, in) // a helper that is handed the file and its writer
 				}
 			}
 			if cc := CallOf(in); cc != nil && cc.StaticCallee() == asyncClose {
@@ -1061,12 +1083,18 @@ func (c *c07ctx) ruleR6() {
 		if len(fc) == 0 {
 			continue
 		}
-		// is this a type that owns an async writer?  (has a field of type *asyncbufio.Writer)
-		if fn.Signature.Recv() == nil {
-			continue
+		// is this a type that owns an async writer?  (has a field of type *asyncbufio.Writer),
+		// or a helper that is handed one
+		var st *types.Struct
+		if fn.Signature.Recv() != nil {
+			st = derefStruct(fn.Signature.Recv().Type())
 		}
-		st := derefStruct(fn.Signature.Recv().Type())
 		owns := false
+		for _, prm := range fn.Params {
+			if pt, ok := prm.Type().(*types.Pointer); ok && pt.Elem() == types.Type(c.awType) {
+				owns = true
+			}
+		}
 		if st != nil {
 			for i := 0; i < st.NumFields(); i++ {
 				if pt, ok := st.Field(i).Type().(*types.Pointer); ok && pt.Elem() == types.Type(c.awType) {
@@ -1153,4 +1181,29 @@ func postDominatesSimple(b, d *ssa.BasicBlock) bool {
 		}
 	}
 	return true
+}
+
+// noteSender records a function that sends on the queue.  The enqueue is the sender that takes
+// the []byte; other senders are accepted when they are methods of the async writer itself (each
+// is held to the same all-or-nothing shape by R3), anything else is a foreign sender.
+func (c *c07ctx) noteSender(fn *ssa.Function, in ssa.Instruction) {
+	for _, f := range c.senders {
+		if f == fn {
+			return
+		}
+	}
+	takesBytes := false
+	for _, prm := range fn.Params {
+		if sl, ok := prm.Type().Underlying().(*types.Slice); ok && types.Identical(sl.Elem(), types.Typ[types.Byte]) {
+			takesBytes = true
+		}
+	}
+	own := fn.Signature.Recv() != nil && c.awType != nil && typeName(fn.Signature.Recv().Type()) == c.awType.Obj().Name()
+	if !own {
+		c.r.Bad("C07.R3", "second sender on the queue: "+FuncName(fn), c.p.InstrPos(in), "only the enqueue function may send on the queue channel")
+	}
+	c.senders = append(c.senders, fn)
+	if c.enqueue == nil || takesBytes {
+		c.enqueue = fn
+	}
 }
